@@ -195,6 +195,11 @@ class MultiStepReplayBuffer(ReplayBuffer):
         super().add(n_step_data)
         return self.n_step_buffer[0]
 
+    def clear(self) -> None:
+        """Clear all transitions from the buffer, including the pending n-step window."""
+        super().clear()
+        self.n_step_buffer.clear()
+
     def sample_from_indices(self, idxs: torch.Tensor) -> TensorDict:
         """Sample a batch of transitions from the buffer using the provided indices.
 
@@ -296,6 +301,14 @@ class PrioritizedReplayBuffer(ReplayBuffer):
         # Initialize segment trees
         self.sum_tree = SumSegmentTree(tree_capacity)
         self.min_tree = MinSegmentTree(tree_capacity)
+
+    def clear(self) -> None:
+        """Clear all transitions from the buffer, together with their priorities."""
+        super().clear()
+        self.max_priority = 1.0
+        self.tree_ptr = 0
+        self.sum_tree = SumSegmentTree(self.sum_tree.capacity)
+        self.min_tree = MinSegmentTree(self.min_tree.capacity)
 
     def add(self, data: TensorDict) -> None:
         """Add a transition to the buffer.
